@@ -246,4 +246,69 @@ PROPS = {
                         "in-place extend of a possibly shared default list (D4): see C09"],
         "explanation": "absence step editing keeps all logs aligned",
     },
+
+    "C09": {
+        "inv": ["BaseWorkflow.__check_ready", "BaseWorkflow.__check_working", "BaseWorkflow.__check_finished",
+                "BaseProject.initialize", "BaseWorkflow.initialize", "BaseOrganization.initialize", "BaseProduct.initialize",
+                "BaseTask.initialize", "BaseWorker.initialize", "BaseFacility.initialize", "BaseComponent.initialize"],
+        "static": COMMON_STATIC + ["c09_identity_scan", "c09_mutable_defaults", "c09_reset_fields"],
+        "level_text": "(a) order independence: the three phases that iterate over internal task sets are verified with loops cut at "
+                      "invariants over an ARBITRARY enumeration of the set; __check_ready and __check_working are proved to yield task "
+                      "states that are a stated function of the pre-state, __check_finished to run to a fixpoint (no finishable task "
+                      "left). (b) no `is`/id()/hash() on values (static, A8). (c) every attribute written during simulate is reset by "
+                      "initialize(True, True) or overwritten from the arguments (static write-sets) and initialize is verified to reset "
+                      "to values that depend on parameters only. (d) no mutable default argument is stored and mutated (static).",
+        "level_note": "`in a fresh process / at other addresses` is not expressible as a contract; it is inferred from (a)-(d) under A2, A3, "
+                      "A7. The PERT passes and check_removing_placed_workplace also iterate sets: their results are covered by C12 (bounded, "
+                      "every order) resp. not yet under contract. Uniqueness of the fixpoint of the finish phase is a monotonicity argument, not mechanised.",
+        "design_ref": "DESIGN.md section 6 C09",
+        "assumptions": ["np.random.normal(m, 0) == m (deterministic skills)", "write-sets are syntactic over-approximations (call resolution by method name)"],
+        "explanation": "order independence, identity independence, reset, ownership of default arguments",
+    },
+    "C15": {
+        "inv": ["BaseProject.simulate", "BaseProject.initialize", "BaseWorkflow.initialize", "BaseOrganization.initialize", "BaseProduct.initialize",
+                "BaseTask.initialize", "BaseWorker.initialize", "BaseFacility.initialize", "BaseTeam.initialize", "BaseWorkplace.initialize",
+                "BaseComponent.initialize", "BaseWorkflow.__check_finished", "BaseWorkflow.__check_ready"],
+        "static": COMMON_STATIC + ["c15_no_loop_carried_locals"],
+        "level_text": "In-memory pause/resume rests on three function-level facts, all discharged: (1) the main loop of simulate carries no "
+                      "state in local variables (static def-use obligation); (2) initialize(state_info=False, log_info=False) is verified to "
+                      "leave every state and log attribute of every class unchanged (whole-array frames); (3) repeating the update phase at "
+                      "the same time changes nothing for the finish and ready phases (the finish phase is verified to reach a fixpoint, the "
+                      "ready phase to be a function of the pre-state). simulate is verified for both settings of the two initialize flags.",
+        "level_note": "The two-run statement (paused+resumed == uninterrupted) itself is not a single contract; the composition of (1)-(3) is a "
+                      "written argument. Idempotence of update_PERT_data and check_removing_placed_workplace at a fixed time is not yet "
+                      "under contract. The JSON variant inherits C16 (format incompleteness D15 is a recorded finding).",
+        "design_ref": "DESIGN.md section 6 C15",
+        "assumptions": ["composition of the three facts into the two-run statement: not mechanised", "JSON variant: see C16"],
+        "explanation": "no loop-carried locals, initialize(False, False) is a no-op, update phases idempotent",
+    },
+    "C16": {
+        "inv": ["BaseTask.__init__", "BaseWorker.__init__"],
+        "static": COMMON_STATIC + ["c16_definite_assignment", "c16_read_keys_exported", "c16_format_complete"],
+        "level_text": "Static obligations over the real export/read code: every attribute read by export_dict_json_data is assigned by "
+                      "__init__ on all paths (writing cannot raise AttributeError), every key read on load is written on save, every "
+                      "constructor parameter whose attribute is read on the simulation path is saved and passed back. Deductive "
+                      "obligations: the BaseTask and BaseWorker constructors store exactly the numeric/enum values they are given "
+                      "(all values incl. 0, 0.0, -1).",
+        "level_note": "Relinking of IDs to objects in read_simple_json and the re-simulation clause are not under contract. json.dump/json.load "
+                      "are trusted to be the identity on JSON values. Three recorded findings (D15: settings missing from the saved format).",
+        "design_ref": "DESIGN.md section 6 C16",
+        "assumptions": ["relinking (read_simple_json) not verified", "constructors of component/facility/team/workplace not yet under contract"],
+        "explanation": "saved format: definite assignment, key consistency, completeness; constructor round trip",
+    },
+    "C17": {
+        "inv": ["BaseWorkflow.reverse_dependencies", "BaseOrganization.reverse_dependencies"],
+        "static": COMMON_STATIC + ["c17_structure_not_in_frame"],
+        "level_text": "reverse_dependencies of workflow and organization are verified to swap the two link lists of every member as the SAME "
+                      "list objects (value identity), so two calls restore the structure; simulate and everything it can call are shown "
+                      "(static write-set) never to write input/output task lists, task_list or workplace links, so an exception anywhere "
+                      "in the inner run leaves exactly the structure the `finally` block undoes (two reverse calls before, two in finally, "
+                      "helper tasks removed).",
+        "level_note": "backward_simulate itself is not executed symbolically (object construction and try/finally with exceptional edges are "
+                      "outside the subset); the log clause (no task WORKING before its FS predecessors stopped) and `later forward run is "
+                      "unaffected` follow from C01/C09(c) by a written argument.",
+        "design_ref": "DESIGN.md section 6 C17",
+        "assumptions": ["exceptions between append_input_task and the bookkeeping of the helper task (MemoryError/KeyboardInterrupt) are not covered"],
+        "explanation": "structure restoration of backward simulation",
+    },
 }
